@@ -4,7 +4,7 @@ from vlint.absint import const_eval, bitwise_pred_equals
 from vlint.facts import callee_of, resolved, AnchorMissing
 from vlint.gates import atom_gate, field_of, root_of
 from vlint.paths import Summariser, ret_okness
-from vlint.terms import show, subterms, peel
+from vlint.terms import Sym, show, subterms, peel
 from vlint.util import must_of, sites, field_writes
 from . import daemon
 from .c02 import adapter_impls
@@ -50,10 +50,97 @@ def run(ctx, chk):
     _c13.run_on(fb, _Renamed(chk, {"M3": "Q7"}))
     chk.rule("Q8", "ring adapter methods (VringMutex / VringRwLock) delegate to the same-named VringState method (C02/D3)")
     _c02.d3(fb, _Renamed(chk, {"D3": ("Q8", lambda k: "Vring" in k)}), "")
+    q12(fb, chk)
+    q14(fb, chk)
     chk.floor("Q1", n("Q1"), 8)
     chk.floor("Q3", n("Q3"), 4)
     chk.floor("Q4", n("Q4"), 4)
     chk.floor("Q5", n("Q5"), 4)
+
+
+# the ring state's setters: each is exactly one call of the queue's setter with the parameter(s) unchanged (numbers: the
+# setter's own parameter, self = 1)
+LEAF = {
+    "set_queue_next_avail": [("set_next_avail", [2])],
+    "set_queue_next_used": [("set_next_used", [2])],
+    "set_queue_size": [("set_size", [2])],
+    "set_queue_event_idx": [("set_event_idx", [2])],
+    "set_queue_ready": [("set_ready", [2])],
+    "queue_next_avail": [("next_avail", [])],
+    "set_queue_info": [("try_set_desc_table_address", [2]), ("try_set_avail_ring_address", [3]), ("try_set_used_ring_address", [4])],
+}
+
+
+def q12(fb, chk, tag=""):
+    chk.rule("Q12", "the ring state's setters perform exactly the queue operation they are named after, with the caller's value, on every path")
+    from vlint.cfg import CFG
+    for name, want in sorted(LEAF.items()):
+        fs = [f for f in fb.find(name=name, self_adt="VringState") if not f.trait]
+        if len(fs) != 1:
+            continue
+        f = fs[0]
+        sym = Sym(f, fb)
+        cfg = CFG(f)
+        got = []
+        for bb, t in f.calls():
+            c = callee_of(t)
+            if not c:
+                continue
+            sa = (c.get("self_adt") or resolved(c).get("self_adt") or "")
+            tr = c.get("of_trait") or c.get("trait") or ""
+            if "Queue" in sa or "Queue" in tr:
+                got.append((c["name"], bb, sym.arg_terms(bb)))
+        key = "%sstate:%s" % (tag, name)
+        probs = []
+        if sorted(g[0] for g in got) != sorted(w[0] for w in want):
+            probs.append("queue operations performed: %s; expected exactly %s" % (sorted(g[0] for g in got), [w[0] for w in want]))
+        else:
+            rets = [bi for bi, b in enumerate(f.blocks) if b["term"]["k"] == "return" and not b["cleanup"]]
+            for (qn, pidx) in want:
+                g = [x for x in got if x[0] == qn][0]
+                vals = [a for a in g[2] if not (a[0] in ("ref", "deref") and "queue" in show(a))]
+                params = []
+                for a in vals:
+                    x = a
+                    while x[0] in ("ref", "deref", "cast") or (x[0] == "agg" and len(x[3]) == 1):
+                        x = x[3][0][1] if x[0] == "agg" else x[1]
+                    params.append(x[1] if x[0] == "param" else None)
+                params = [p for p in params if p is not None or True][:len(pidx)] if pidx else []
+                if pidx and params != pidx:
+                    probs.append("%s receives %s, not the setter's own parameter(s) in order" % (qn, [show(a)[:40] for a in vals]))
+                if len(want) == 1 and not cfg.all_paths_pass_through(0, rets, {g[1]}):
+                    probs.append("%s is skipped on some path" % qn)
+        chk.check(not probs, "Q12", key, "%s -> %s" % (name, [w[0] for w in want]),
+                  "VringState::%s: %s" % (name, "; ".join(probs)), f.loc())
+
+
+# who may configure a ring: each queue setter of the ring interface is called by the handler of its own request only
+WRITERS = {
+    "set_queue_next_used": {"set_vring_addr"},
+    "set_queue_next_avail": {"set_vring_base"},
+    "set_queue_size": {"set_vring_num"},
+    "set_queue_info": {"set_vring_addr"},
+    "set_queue_event_idx": {"set_features"},
+}
+
+
+def q14(fb, chk, tag=""):
+    chk.rule("Q14", "each ring-configuration setter is called only by the handler of the request that carries its value")
+    seen = {k: set() for k in WRITERS}
+    for f in fb.fns.values():
+        if (f.self_adt or "").endswith(("VringMutex", "VringRwLock", "VringState")):
+            continue
+        for bb, t in f.calls():
+            c = callee_of(t)
+            if c and c.get("name") in WRITERS and ((c.get("of_trait") or c.get("trait") or "").endswith("VringT")
+                                                   or (c.get("self_adt") or "").endswith(("VringMutex", "VringRwLock", "VringState"))):
+                seen[c["name"]].add((f.name, f.short, f.loc(t["line"])))
+    for name, allowed in sorted(WRITERS.items()):
+        others = sorted((sh, loc) for (n, sh, loc) in seen[name] if n not in allowed)
+        chk.check(not others and seen[name], "Q14", "%swriters:%s" % (tag, name), "called by %s only" % sorted(allowed),
+                  "%s is also called by %s: the value configured by %s is overwritten by another request"
+                  % (name, [o[0] for o in others], "/".join(sorted(allowed))) if seen[name] else "no caller of %s found" % name,
+                  others[0][1] if others else None)
 
 
 def thorough(ctx, chk):
